@@ -146,7 +146,9 @@ Section Proofs.
     - split; [reflexivity|]. split; [now left|]. reflexivity.
   Qed.
 
-  Hypothesis SW : StrictWeak T (ltb N).
+  (* only transitivity of "strictly lower" is needed: IEEE comparison has it also in the presence of NaN energies (a NaN is never
+     strictly lower than anything, nor anything than it) *)
+  Hypothesis Htrans : forall x y z : T, ltb N x y = true -> ltb N y z = true -> ltb N x z = true.
 
   Lemma member_ok_trans a b c : member_ok a b -> member_ok b c -> member_ok a c.
   Proof.
@@ -154,7 +156,7 @@ Section Proofs.
     destruct H as [->|(tr' & e' & -> & H3 & H4)].
     - right. exists tr, e. auto.
     - right. exists tr', e'. split; [reflexivity|]. split; [exact H3|].
-      simpl in H4. exact (sw_trans T (ltb N) SW _ _ _ H4 H2).
+      simpl in H4. exact (Htrans _ _ _ H4 H2).
   Qed.
 
   Lemma sel_step_best c tr e st : cost tr = Some e -> member_ok (de_best N st) (de_best N (sel_step N c tr e st)).
